@@ -20,7 +20,7 @@ def main():
         if args[0] == "--tier":
             tier = args[1]; args = args[2:]
         elif args[0] == "--props":
-            props = None if args[1] == "all" else args[1].split(","); args = args[2:]
+            props = None if args[1] == "all" else args[1].split(","); args = args[2:]   # "own": the seed's own property
         else:
             sys.exit("unknown flag " + args[0])
     man = json.load(open(f"{ROOT}/MANIFEST.json"))
@@ -34,7 +34,12 @@ def main():
             print(sid, "skipped: " + meta.get("status", "inactive")[:80])
             continue
         todo = props or claimed
+        if props == ["own"]:
+            todo = [meta.get("property")]
         res = {"seed": sid, "property": meta.get("property"), "tier": tier, "checks": {}}
+        if todo != claimed and os.path.exists(f"{d}/result.json"):
+            # a partial run updates the rows of the checks it ran
+            res["checks"] = json.load(open(f"{d}/result.json")).get("checks", {})
         r = sh(f"git -C /repo apply {d}/patch.diff")
         if r.returncode != 0:
             res["error"] = "patch does not apply: " + r.stderr.strip()
